@@ -591,7 +591,83 @@ func c13SubscriberStalled(w *core.WorkerCtx) {
 	}
 }
 
+// c13Twins: one sealer's distinct vertices that carry the very same creation time (two vertices sealed within one reading
+// of the clock) reach a node before their common parent; a copy of each arrives twice. Once the parent is present every
+// one of them has to be admitted. A twin that is missing afterwards is offered again directly: only if the node then takes
+// it (so parents-first delivery would have admitted it) the orphan path is held to have lost it.
+func c13Twins(w *core.WorkerCtx) {
+	rng := core.Rand(w.Seed, "C13twins", w.Batch)
+	desc := fmt.Sprintf("c13 vertices of one sealer with equal creation times parked together seed=%d batch=%d", w.Seed, w.Batch)
+	w.Mark("%s", desc)
+	world := ledger.NewWorld(rng, w.R, []string{"C13"}, allSnapOracles, desc)
+	defer world.Close()
+	if _, err := ledger.Setup(world, ledger.Profile{Nodes: 1, Users: 4, SupplyClass: 0, Delivery: "lockstep"}); err != nil {
+		w.R.Inconc("setup failed: " + err.Error())
+		return
+	}
+	n := world.Nodes[0]
+	u := world.Users
+	rounds := 3 + rng.Intn(3)
+	for round := 0; round < rounds; round++ {
+		s := n.Prev
+		var tip ledger.H
+		var wgt uint64
+		found := false
+		for th := range s.Leaves {
+			if tv, ok := s.Vertex(th); ok && (!found || tv.Weight >= wgt) {
+				tip, wgt, found = th, tv.Weight, true
+			}
+		}
+		if !found {
+			w.R.Note("twins: no tip to build on")
+			return
+		}
+		pt := world.NewTrx(u[0], u[1].Addr, spice.Melange{}, []byte(fmt.Sprintf("twins parent %d", round)))
+		parent := ledger.ForgeVertex(world.Sealers[0], pt, tip, tip, wgt+1, world.Now())
+		k := 2 + rng.Intn(3)
+		at := world.Now()
+		sealer := world.Sealers[1]
+		var twins []accountant.Vertex
+		for i := 0; i < k; i++ {
+			t := world.NewTrx(u[i%len(u)], u[(i+1)%len(u)].Addr, spice.Melange{}, []byte(fmt.Sprintf("twin %d of round %d", i, round)))
+			twins = append(twins, ledger.ForgeVertex(sealer, t, parent.Hash, parent.Hash, wgt+2, at))
+		}
+		parked := 0
+		for pass := 0; pass < 2; pass++ {
+			for i := range twins {
+				if err := world.Deliver(n, &twins[i], "twin before its parent"); ledger.IsParked(err) {
+					parked++
+				}
+			}
+		}
+		if err := world.Deliver(n, &parent, "the twins' parent"); err != nil {
+			w.R.Note("twins: the parent was refused: " + err.Error())
+			return
+		}
+		for i := 0; i < 3*k+4; i++ {
+			world.Retry(n)
+		}
+		world.EvalFor("C13", k)
+		world.NontrivFor("C13", fmt.Sprintf("twins/k%d/parked%d", k, parked))
+		w.R.Count("c13_twin_vertices_judged", k)
+		for i := range twins {
+			if _, err := n.Book.ReadVertex(world.Ctx, twins[i].Hash); err == nil {
+				continue
+			}
+			again := world.Deliver(n, &twins[i], "twin offered again with its parent present")
+			if again == nil {
+				world.Violate("C13", "parked-vertex-never-admitted/equal-creation-time", fmt.Sprintf("%d vertices of sealer %s with the same creation time arrived before their parent; after the parent arrived and %d retry ticks vertex %d of them was not in the ledger, offered directly it was admitted at once (parked at that moment: %d)", k, world.NameOf(sealer.Addr), 3*k+4, i, n.Book.VerifParkedLen()))
+			} else {
+				w.R.Note(fmt.Sprintf("twins: twin %d missing and refused when offered again: %v", i, again))
+			}
+		}
+	}
+}
+
 func c13Worker(w *core.WorkerCtx) {
+	if w.Batch == 0 || (w.Thorough() && w.Batch%4 == 0) {
+		c13Twins(w)
+	}
 	if w.Batch == 3 || (w.Thorough() && w.Batch%4 == 3) {
 		c13SubscriberStalled(w)
 	}
@@ -738,7 +814,7 @@ func init() {
 	core.Register(&core.Check{
 		Spec: core.Spec{
 			Prop:        "C13",
-			Rule:        "Valid histories of 6-20 vertices (chains and diamonds from two lagging source nodes, several wallets, every spend covered in every branch) are delivered to fresh synced nodes in PRNG permutations (plus the fully reversed order; thorough: all 720 permutations of a 6-vertex history), with duplicates, retry steps in between and invalid companions (tampered, re-signed by a wrong key, self-sealed child of a not yet known vertex). Per delivery: unknown parent => reported as such and parked (or already admitted by the ticker), known parents => accepted; then the retry path is stepped until the buffer is empty: the final ledger (vertices, graph edges, index) must equal parents-first delivery, nothing admitted twice, no invalid companion in the ledger, buffer <= 500, an orphan whose parent never comes is dropped after a bounded number of retries. Non-trivial = every non-identity permutation; distinct by (size, parked count bucket, retry steps bucket, companions). Every fifth order is delivered through a real gossip service on top of the node's ledger (GossipVrx with the wire form of the vertex) instead of a direct AddLeaf. One batch runs a long-lived node: a valid history of 84 vertices delivered in reversed stages of 21 (each stage within the bounds, more than 800 cumulative parkings over the node's life); it must end with the parents-first ledger. Every delivery runs under a context of its own that ends when the call returns, as a request handler's does. Come and go: tentative overdrawing tips that are not part of the history are admitted and, some deliveries later, dropped by their children, so that between the parking of an orphan and the arrival of its parents the ledger grows and shrinks (fixed scenario with 1-3 such tips and as many parents; every seventh sampled permutation). Stalled replay routine: four vertices parked, their ancestor delivered, then a local proposal that holds the ledger lock for six seconds (three ticks); all four must be admitted by the node's own ticker afterwards.",
+			Rule:        "Valid histories of 6-20 vertices (chains and diamonds from two lagging source nodes, several wallets, every spend covered in every branch) are delivered to fresh synced nodes in PRNG permutations (plus the fully reversed order; thorough: all 720 permutations of a 6-vertex history), with duplicates, retry steps in between and invalid companions (tampered, re-signed by a wrong key, self-sealed child of a not yet known vertex). Per delivery: unknown parent => reported as such and parked (or already admitted by the ticker), known parents => accepted; then the retry path is stepped until the buffer is empty: the final ledger (vertices, graph edges, index) must equal parents-first delivery, nothing admitted twice, no invalid companion in the ledger, buffer <= 500, an orphan whose parent never comes is dropped after a bounded number of retries. Non-trivial = every non-identity permutation; distinct by (size, parked count bucket, retry steps bucket, companions). Every fifth order is delivered through a real gossip service on top of the node's ledger (GossipVrx with the wire form of the vertex) instead of a direct AddLeaf. One batch runs a long-lived node: a valid history of 84 vertices delivered in reversed stages of 21 (each stage within the bounds, more than 800 cumulative parkings over the node's life); it must end with the parents-first ledger. Every delivery runs under a context of its own that ends when the call returns, as a request handler's does. Come and go: tentative overdrawing tips that are not part of the history are admitted and, some deliveries later, dropped by their children, so that between the parking of an orphan and the arrival of its parents the ledger grows and shrinks (fixed scenario with 1-3 such tips and as many parents; every seventh sampled permutation). Stalled replay routine: four vertices parked, their ancestor delivered, then a local proposal that holds the ledger lock for six seconds (three ticks); all four must be admitted by the node's own ticker afterwards. Twins: 2-4 distinct vertices of one sealer that carry the very same creation time reach a node, each twice, before their common parent; after the parent and the retry ticks every one must be in the ledger (a missing one is offered again directly and counts only if the node then admits it).",
 			Assumptions: []string{"histories stay within the retry bound (<= 20 vertices), so every vertex is admitted for any permutation", ledgerAssume},
 			MinEvals:    300, MinNontriv: 8,
 		},
